@@ -32,7 +32,7 @@ Definition spec_leaf (def : option ptree) (dflt ctor clif : list ptree) (cli : p
 Fixpoint leaf_paths (w : wtree) {struct w} : list (path * option ptree) :=
   match w with
   | WLeaf _ d _ _ => [([], d)]
-  | WClass fs =>
+  | WClass _ fs =>
       (fix go (fs : list (string * wtree)) : list (path * option ptree) :=
          match fs with
          | [] => []
@@ -48,19 +48,20 @@ Fixpoint shape_ok (w : wtree) (t : ptree) {struct w} : bool :=
   match w, t with
   | WLeaf _ _ _ _, PMap _ => false
   | WLeaf _ _ _ _, _ => true
-  | WClass fs, PMap m =>
+  | WClass _ fs, PMap m =>
       (fix go (fs : list (string * wtree)) : bool :=
          match fs with
          | [] => true
          | (k, c) :: r => match lookup k m with Some tk => shape_ok c tk | None => true end && go r
          end) fs
-  | WClass _, _ => false
+  | WClass cm _, PNull => is_copt cm       (* an Optional member may be None *)
+  | WClass _ _, _ => false
   end.
 
 (* inside the section of some dataclass there is a key that names none of its fields *)
 Fixpoint names_nonfield (w : wtree) (t : ptree) {struct w} : bool :=
   match w, t with
-  | WClass fs, PMap m =>
+  | WClass _ fs, PMap m =>
       existsb (fun k => negb (str_in k (keys fs)) && negb (str_in k SPEC_RESERVED)) (keys m)
       || (fix go (fs : list (string * wtree)) : bool :=
             match fs with
@@ -83,6 +84,39 @@ Definition forest_names_nonfield (ws : list (string * wtree)) (t : ptree) : bool
   | _ => false
   end.
 
+(* ---------- Optional[Dataclass] members (definition default None) ---------- *)
+(* their paths below a node *)
+Fixpoint opt_paths (w : wtree) {struct w} : list path :=
+  match w with
+  | WLeaf _ _ _ _ => []
+  | WClass cm fs =>
+      ((if is_copt cm then [[]] else []) ++
+       (fix go (fs : list (string * wtree)) : list path :=
+          match fs with
+          | [] => []
+          | (k, c) :: r => (map (cons k) (opt_paths c) ++ go r)%list
+          end) fs)%list
+  end.
+
+Definition forest_opt_paths (ws : list (string * wtree)) : list path :=
+  flat_map (fun dw => map (cons (fst dw)) (opt_paths (snd dw))) ws.
+
+Fixpoint is_prefix (a q : path) : bool :=
+  match a, q with
+  | [], _ => true
+  | x :: a', y :: q' => String.eqb x y && is_prefix a' q'
+  | _ :: _, [] => false
+  end.
+
+(* what a source says about the member itself: a section (an instance) or None *)
+Definition member_mention (a : path) (t : ptree) : option ptree :=
+  match subtree a t with Some (PMap m) => Some (PMap m) | Some PNull => Some PNull | _ => None end.
+
+(* the member stays None unless the highest-priority source that says anything about it gives it a section;
+   `layers`: the sources, highest priority first *)
+Definition collapsed (layers : list ptree) (a : path) : bool :=
+  match first_some (map (member_mention a) layers) with Some (PMap _) => false | _ => true end.
+
 (* ---------- the verdict on one parse ---------- *)
 Inductive verdict :=
 | VMustFail                                   (* an error, not a silently dropped key *)
@@ -96,7 +130,16 @@ Definition spec_verdict (ws : list (string * wtree)) (inst : ptree) (sdefs ctor 
   let docs := (sdefs ++ ctor ++ clif)%list in
   if existsb (forest_names_nonfield ws) docs then VMustFail
   else if negb (forallb (forest_shape_ok ws) (inst :: cli :: docs)) then VUnspecified
-  else VLeaves (map (fun qd => (fst qd, spec_leaf (snd qd) (inst :: sdefs) ctor clif cli (fst qd))) (forest_leaf_paths ws)).
+  else
+    let layers := (cli :: rev clif ++ rev ctor ++ rev (inst :: sdefs))%list in
+    let gone := filter (collapsed layers) (forest_opt_paths ws) in
+    VLeaves
+      (* fields that exist: not below an Optional member that stays None *)
+      (filter (fun qv => negb (existsb (fun a => is_prefix a (fst qv)) gone))
+              (map (fun qd => (fst qd, spec_leaf (snd qd) (inst :: sdefs) ctor clif cli (fst qd))) (forest_leaf_paths ws))
+       (* the outermost Optional members that stay None *)
+       ++ map (fun a => (a, Some PNull))
+              (filter (fun a => negb (existsb (fun a' => is_prefix a' a && negb (is_prefix a a')) gone)) gone))%list.
 
 Definition demanded_at (r : ptree) (qv : path * option ptree) : bool :=
   match snd qv with
